@@ -95,7 +95,8 @@ CHECKS = {
     "C09": dict(
         text="Proof: (c09_ignored) without deny_unknown_fields the run on a payload equals, for every script and state, result and calls, the run on the payload with all unknown-key "
              "members removed; (c09_denied_step) with it, a member whose key matches no field is reported as UnknownKey with the accepted-key list at the container's location and the loop "
-             "continues. Correspondence + Spec.v monitor + pair monitor (extra keys change nothing) on generated derive inputs.",
+             "continues; (c09_unknown_member_result, specification level) a member whose key is no field's effective key is exactly one UnknownKey report / one user-function call / nothing at all, "
+             "per the attribute, summed over the members by c02_fields_independent. Correspondence + Spec.v monitor + pair monitor (extra keys change nothing) on generated derive inputs.",
         ref="5 C09", technique="Coq theorem by induction on the member list (run-level equality); relational in-Coq monitor on (payload, payload+extra keys) pairs",
         note="Trusted: as C01; the accepted list = effective keys in declaration order relies on Derive.v (C07). No axioms."),
     "C10": dict(
@@ -137,13 +138,17 @@ CHECKS = {
              "every location at which the value sits in the payload, every script and state, EVERY call the interpreter can make is true of the payload (call_ok): locations resolve, "
              "IncorrectValueKind carries the value found there whose kind is not accepted, BadSequenceLen the sequence found there of another length, MissingField is absent there, UnknownKey is "
              "present there and not accepted, UnknownValue is the string found there and not accepted; by induction on types over a Calls invariant, using the C08 state invariant for missing "
-             "fields. The hand-over-location-is-an-ancestor clause is decided by the trace monitor (call_true / locs_under) + correspondence.",
-        ref="5 C04", technique="Coq: Calls invariant on call trees + resolution lemmas, induction on types; in-Coq monitor evaluating the same predicate on implementation traces",
-        note="Trusted: as C01. Hypotheses stated in the theorem: c04_wf t, nodup_keys payload. Partial: ancestor clause of hand-over locations has no theorem. No axioms."),
+             "fields; (c04_merge_location) under every script every hand-over merge(_, other, loc) is made at an ancestor-or-self of the location of every report held by other - a located typing "
+             "discipline on call trees (each error value carries a location bound), sound for every run, induction on types; (c04_call_true) hence the very monitor the check evaluates on the "
+             "implementation's traces (Monitors.call_true) holds of every call of every run of the model.",
+        ref="5 C04", technique="Coq: Calls invariant on call trees + resolution lemmas + located typing discipline (Loc) with soundness, induction on types; in-Coq monitor evaluating the same "
+                               "predicate on implementation traces",
+        note="Trusted: as C01. Hypotheses stated in the theorem: c04_wf t, nodup_keys payload. No axioms."),
     "C07": dict(
         text="Proof: (c07_pairing) for every field list in any declaration order and attribute mix, the match arms generated from the vectors of NamedFieldsInfo are, position by position, the "
              "non-skipped fields in declaration order, each with its identifier, effective key, type, error type, conversion, default, map and missing-field function (stable sort + positional "
-             "zip proved); (c07_variant_scope) a variant's fields are renamed by the variant's own rename_all only; (c07_effective_key) rename, else rename_all, else identifier. camelCase / "
+             "zip proved); (c07_variant_scope) a variant's fields are renamed by the variant's own rename_all only; (c07_effective_key) rename, else rename_all, else identifier; (c07_field_filled_from_own_key, c07_own_member_result, specification level, interpreter through the C02 refinement) with "
+             "distinct keys the value a field ends with is the result of the one member carrying exactly its effective key, whatever the other members are, else its default. camelCase / "
              "lowercase (convert_case, to_lowercase) are modelled for ASCII identifiers and tied by correspondence on generated derive inputs with payloads over all plausible keys.",
         ref="5 C07", technique="Coq theorems about the derive front-end model (list/zip/filter lemmas); in-Coq differential check on generated derive inputs compiled by the real macro",
         note="Trusted: as C01 + Derive.v; convert_case and str::to_lowercase are modelled (ASCII) and tied by correspondence only. No axioms."),
@@ -151,9 +156,11 @@ CHECKS = {
         text="Proof: (c08_missing_state_iff) after the entry loop, under any script, field i is Missing iff it has no default and no payload member selected its arm (present-but-invalid and "
              "null never leave it Missing); (c08_selected_by_own_key) with distinct keys that means its key is absent; (c08_missing_reports) under a keep-going error type the missing loop "
              "reports exactly those fields, once each, in field order, as MissingField(effective key) at the container's location or through the user's function called with exactly (key, "
-             "location). Defaults/skip values are decided by correspondence + Spec.v monitor on all delete/null/corrupt subsets.",
-        ref="5 C08", technique="Coq: Leaves invariant over the entry loop + explicit run of the missing loop; in-Coq differential check + Spec.v monitor",
-        note="Trusted: as C01. Partial: default/skip values flow has no dedicated theorem (correspondence + spec monitor). No axioms."),
+             "location); (c08_absent_key_default, c08_struct_value_shape, specification level, interpreter through the C02 refinement) a field whose key is absent ends with its default; a successful struct is "
+             "its non-skipped fields in declaration order with their final values through their map functions, followed by the skipped fields built from their defaults alone. Correspondence + Spec.v "
+             "monitor on all delete/null/corrupt subsets.",
+        ref="5 C08", technique="Coq: Leaves invariant over the entry loop + explicit run of the missing loop + specification-level characterisation of field values; in-Coq differential check + Spec.v monitor",
+        note="Trusted: as C01. The value-flow theorems are about Spec.spec (keep-going interpreter by c02_refinement; other scripts by correspondence). No axioms."),
     "C15": dict(
         text="Proof: (c15_spec_order_insensitive) for payloads v, v' related by permuting the members of any objects at any depth (veq: closure of member permutation under nesting in objects and "
              "sequences) where within each object keys are distinct and no two distinct keys parse to the same map key (wfv; e.g. \"1\" and \"01\" for an integer-keyed map, where the real code "
